@@ -36,7 +36,7 @@ COMPONENTS = {
     "real": ["pulser HamiltonianData noise-trajectory sampling", "PulserData.get_sequences (reps expansion)", "MPSBackend.run / SVBackend.run", "Results.aggregate", "both solvers' numerics"],
     "stubbed": ["numpy / random / torch RNG seeding", "clock", "uuid", "minimize_bandwidth (scheduler-chosen permutation)"],
 }
-PROBES = ["second_run_on_same_backend_object", "n_ge_2", "n_ge_10", "shot_to_shot_noise", "trajectory_invariant_noise", "reps_grouped", "dark_atoms_in_some_trajectory", "n_equals_1", "lindblad_plus_shot_to_shot", "isolation_rerun_done"]
+PROBES = ["second_run_on_same_backend_object", "n_ge_2", "n_ge_10", "shot_to_shot_noise", "trajectory_invariant_noise", "reps_grouped", "dark_atoms_in_some_trajectory", "n_equals_1", "lindblad_plus_shot_to_shot", "isolation_rerun_done", "isolation_from_fresh_trajectory_list"]
 ASSUMPTIONS = [
     "the re-simulation of a recorded trajectory uses the RNG state captured at its entry, so jumps, bit-string samples and readout flips are reproduced exactly",
     "aggregation semantics are Pulser's (mean / bag union); tags Pulser marks SKIP/SKIP_WARN (statistics, state, energy_variance) are not compared",
@@ -47,6 +47,10 @@ def plan(tier: str) -> dict:
     if tier == "quick":
         return {"runs": 800, "wall_s": 170, "task_timeout": 400}
     return {"runs": 5000, "wall_s": 1700, "task_timeout": 1200}
+
+
+class _Skip(Exception):
+    """The stronger isolation variant does not apply (e.g. the adapter API differs): fall back to the plain one."""
 
 
 def gen_noise(tape: Tape, backend: str, n_atoms: int) -> tuple[dict, list[str]]:
@@ -104,6 +108,13 @@ def run_one(tape: Tape, tier: str, opts: dict) -> dict:
         cfg: dict[str, Any] = {"backend": backend, "dt": dt, "observables": obs, "default_times": None, "noise": noise, "n_trajectories": ntraj}
         if backend == "mps":
             cfg.update(precision=1e-6, max_bond_dim=64, optimize=tape.bool(0.5, "optimize"), solver="tdvp")
+        # a user-supplied interaction matrix is one tensor in the config, handed to every trajectory
+        if not scn.get("slm") and not scn.get("xy") and tape.bool(0.2, "user_interaction_matrix"):
+            um = [[0.0] * n_atoms for _ in range(n_atoms)]
+            for i in range(n_atoms):
+                for j in range(i + 1, n_atoms):
+                    um[i][j] = um[j][i] = round(tape.float(2.0, 15.0, f"u{i}{j}"), 3)
+            cfg["interaction_matrix"] = um
         # a user-supplied initial state is one object in the config, handed to every trajectory
         if "spam_prep" not in kinds and not scn.get("xy") and tape.bool(0.3, "user_initial_state"):
             bits = "".join("r" if tape.bool(0.5, f"ib{i}") else "g" for i in range(n_atoms))
@@ -121,7 +132,7 @@ def run_one(tape: Tape, tier: str, opts: dict) -> dict:
         seeds = (tape.seed32("seed_py"), tape.seed32("seed_np"), tape.seed32("seed_torch"))
         perm = tape.permutation(n_atoms, "perm") if cfg.get("optimize") else list(range(n_atoms))
         case = {"cfg": cfg, "perm_kind": "fixed", "perm": perm}
-        desc = {"backend": backend, "atoms": scn["atoms"], "ops": scn["ops"], "dt": dt, "T": T, "noise": noise, "n_trajectories": ntraj, "initial_state": cfg.get("initial_mixed") or cfg.get("initial_bits"), "observables": [o["kind"] for o in obs], "times": times, "shots": obs[0]["shots"], "internal_order": perm if cfg.get("optimize") else None}
+        desc = {"backend": backend, "atoms": scn["atoms"], "ops": scn["ops"], "dt": dt, "T": T, "noise": noise, "n_trajectories": ntraj, "initial_state": cfg.get("initial_mixed") or cfg.get("initial_bits"), "user_interaction_matrix": cfg.get("interaction_matrix"), "observables": [o["kind"] for o in obs], "times": times, "shots": obs[0]["shots"], "internal_order": perm if cfg.get("optimize") else None}
         history: list[dict] = []
         first: dict[int, tuple] = {}
 
@@ -256,9 +267,31 @@ def run_one(tape: Tape, tier: str, opts: dict) -> dict:
                     rng_restore(h["rng"])
                     return B._run_from_sequence_data(copy.deepcopy(h["data"]), config)
 
-                o2 = M.run_incarnation(world, fn2, seeds=seeds, perm_chooser=C.perm_chooser(case) if backend == "mps" else None)
+                def fn3(inc: Any, h: dict = h, k: int = k) -> Any:
+                    """The k-th trajectory from a freshly built trajectory list (same seeds, so Pulser samples the same
+                    noise), with NONE of the earlier ones simulated: whatever they might have left behind in tensors
+                    shared through the config or the adapter is not there."""
+                    import emu_mps
+                    import emu_sv
+                    from emu_base import PulserData
+
+                    B = emu_mps.MPSBackend if backend == "mps" else emu_sv.SVBackend
+                    config = S.make_config(scn, cfg)
+                    data = list(PulserData(sequence=seq, config=config, dt=config.dt).get_sequences())
+                    if len(data) != n_rec:
+                        raise _Skip(f"{len(data)} trajectories rebuilt, {n_rec} recorded")
+                    rng_restore(h["rng"])
+                    return B._run_from_sequence_data(data[k], config)
+
+                use_list = not twice and tape.bool(0.5, f"iso_from_fresh_list{k}")
+                o2 = M.run_incarnation(world, fn3 if use_list else fn2, seeds=seeds, perm_chooser=C.perm_chooser(case) if backend == "mps" else None)
+                if use_list and o2.error is not None and ("_Skip" in type(o2.error).__name__ or isinstance(o2.error, (ImportError, TypeError, AttributeError))):
+                    o2 = M.run_incarnation(world, fn2, seeds=seeds, perm_chooser=C.perm_chooser(case) if backend == "mps" else None)
+                    use_list = False
                 evals += 1
                 probes["isolation_rerun_done"] = probes.get("isolation_rerun_done", 0) + 1
+                if use_list:
+                    probes["isolation_from_fresh_trajectory_list"] = probes.get("isolation_from_fresh_trajectory_list", 0) + 1
                 if o2.error is not None:
                     V.append({"clause": "C34.isolation-raised", "site": o2.error_site or "?", "msg": f"trajectory #{k} simulated alone raised {o2.error!r} although it ran inside run() :: {desc}"})
                     continue
